@@ -10,11 +10,15 @@
    Go maps are association lists (the tracker only looks keys up and inserts absent keys; the one
    place where a map is ranged over, writeImports, sorts the keys first).
 
-   [fixed = false] is the code before the two repairs (fixes/C03-*.diff):
+   [fixed = false] is the code before the two repairs fixes/C03-1, C03-2:
      - toLocalName returned whatever LowerCamelCase left (keywords, leading digits, punctuation,
        the empty string);
      - add gave up silently when every candidate was taken or reserved.
-   [fixed = true] is the repaired code. *)
+   [fixed = true] is the repaired code.
+
+   [pre] is the list of names [bind] refuses outright.  The code after fixes/C03-3 refuses the
+   names of go/types.Universe ([pre] = Gen/StdList.v [universe_names]); the code before it refused
+   nothing ([pre = []]), so a package could be imported as `string` or `len`. *)
 Require Import Gengo.Base.Bytes Gengo.Model.CamelCase Gengo.Model.GoIdent.
 From Coq Require Decimal DecimalNat DecimalString.
 
@@ -145,8 +149,10 @@ Definition std_conflict (std : option tracker) (nm path : bytes) : bool :=
   | None => false
   end.
 
-Definition bind (std : option tracker) (tr : tracker) (nm path : bytes) : option tracker :=
-  if std_conflict std nm path then None
+(* if types.Universe.Lookup(localName) != nil { return false }   — [pre] = the universe's names *)
+Definition bind (pre : list bytes) (std : option tracker) (tr : tracker) (nm path : bytes) : option tracker :=
+  if name_in pre nm then None
+  else if std_conflict std nm path then None
   else match lookup nm (n2p tr) with
        | Some _ => None
        | None => Some (mk_tracker ((path, nm) :: p2n tr) ((nm, path) :: n2p tr))
@@ -154,15 +160,15 @@ Definition bind (std : option tracker) (tr : tracker) (nm path : bytes) : option
 
 (* for i := range len(parts) { localName = golangTrackerLocalName(parts, i+1); if bind { return } }
    [ns] = the remaining values of i+1; also returns the last candidate computed *)
-Fixpoint try_cands (fixed : bool) (std : option tracker) (tr : tracker) (path : bytes)
+Fixpoint try_cands (fixed : bool) (pre : list bytes) (std : option tracker) (tr : tracker) (path : bytes)
          (segs : list bytes) (ns : list nat) (last : bytes) : res (option tracker * bytes) :=
   match ns with
   | [] => Ok (None, last)
   | n :: rest =>
       let! nm := local_name fixed segs n in
-      match bind std tr nm path with
+      match bind pre std tr nm path with
       | Some tr' => Ok (Some tr', nm)
-      | None => try_cands fixed std tr path segs rest nm
+      | None => try_cands fixed pre std tr path segs rest nm
       end
   end.
 
@@ -171,43 +177,43 @@ Definition itoa (k : nat) : bytes := of_string (DecimalString.NilEmpty.string_of
 
 (* for n := 2; ; n++ { if bind(localName + Itoa(n)) { return } }      (repaired code only).
    The Go loop has no bound; the model runs it on fuel and Proofs/Tracker.v shows that the fuel
-   [add] supplies (one more than the number of names that can be taken) is never used up. *)
-Fixpoint number_loop (fuel : nat) (k : nat) (std : option tracker) (tr : tracker)
+   [add] supplies (one more than the number of names that can be refused) is never used up. *)
+Fixpoint number_loop (fuel : nat) (k : nat) (pre : list bytes) (std : option tracker) (tr : tracker)
          (base path : bytes) : res tracker :=
   match fuel with
   | O => OutOfFuel
   | S f =>
-      match bind std tr (base ++ itoa k) path with
+      match bind pre std tr (base ++ itoa k) path with
       | Some tr' => Ok tr'
-      | None => number_loop f (S k) std tr base path
+      | None => number_loop f (S k) pre std tr base path
       end
   end.
 
 Definition std_size (std : option tracker) : nat :=
   match std with Some s => length (n2p s) | None => 0 end.
 
-Definition add (fixed : bool) (std : option tracker) (tr : tracker) (path : bytes) : res tracker :=
+Definition add (fixed : bool) (pre : list bytes) (std : option tracker) (tr : tracker) (path : bytes) : res tracker :=
   match lookup path (p2n tr) with
   | Some _ => Ok tr
   | None =>
       let segs := split_slash [] path in
-      let! (r, last) := try_cands fixed std tr path segs (seq 1 (length segs)) [] in
+      let! (r, last) := try_cands fixed pre std tr path segs (seq 1 (length segs)) [] in
       match r with
       | Some tr' => Ok tr'
       | None =>
-          if fixed then number_loop (S (length (n2p tr) + std_size std)) 2 std tr last path
+          if fixed then number_loop (S (length (n2p tr) + std_size std + length pre)) 2 pre std tr last path
           else Ok tr                       (* the old code fell out of the loop: nothing bound *)
       end
   end.
 
 (* std.go: init() — the reserved-name table is a tracker without checkStd fed with std.list *)
-Fixpoint add_all (fixed : bool) (std : option tracker) (tr : tracker) (paths : list bytes) : res tracker :=
+Fixpoint add_all (fixed : bool) (pre : list bytes) (std : option tracker) (tr : tracker) (paths : list bytes) : res tracker :=
   match paths with
   | [] => Ok tr
-  | p :: r => let! tr' := add fixed std tr p in add_all fixed std tr' r
+  | p :: r => let! tr' := add fixed pre std tr p in add_all fixed pre std tr' r
   end.
-Definition build_std (fixed : bool) (lines : list bytes) : res tracker :=
-  add_all fixed None empty_tracker (filter (fun l => negb (is_nil l)) lines).
+Definition build_std (fixed : bool) (pre : list bytes) (lines : list bytes) : res tracker :=
+  add_all fixed pre None empty_tracker (filter (fun l => negb (is_nil l)) lines).
 
 (* ---- rawNamer ---- *)
 (* A reference as rawNamer.Name sees it.  [r_name] is the text of TypeName.Name() up to the type
@@ -221,20 +227,20 @@ Record ref := mk_ref { r_path : bytes; r_name : bytes; r_args : list (bytes * by
 Definition dot : ascii := "."%char.
 
 (* processName: for x := range t.Walk { ... }  followed by t.String() *)
-Fixpoint walk_args (fixed : bool) (std : option tracker) (self : bytes) (tr : tracker)
+Fixpoint walk_args (fixed : bool) (pre : list bytes) (std : option tracker) (self : bytes) (tr : tracker)
          (args : list (bytes * bytes)) : res (tracker * bytes) :=
   match args with
   | [] => Ok (tr, [])
   | (p, lit) :: rest =>
       if is_nil p then
-        let! (tr', txt) := walk_args fixed std self tr rest in Ok (tr', lit ++ txt)
+        let! (tr', txt) := walk_args fixed pre std self tr rest in Ok (tr', lit ++ txt)
       else if bytes_eqb p self then
-        let! (tr', txt) := walk_args fixed std self tr rest in Ok (tr', lit ++ txt)
+        let! (tr', txt) := walk_args fixed pre std self tr rest in Ok (tr', lit ++ txt)
       else
-        let! tr1 := add fixed std tr p in
+        let! tr1 := add fixed pre std tr p in
         let nm := lookup_or_empty p (p2n tr1) in
         let q := if is_nil nm then [] else nm ++ [dot] in      (* String(): if len(PkgPath) > 0 *)
-        let! (tr', txt) := walk_args fixed std self tr1 rest in Ok (tr', q ++ lit ++ txt)
+        let! (tr', txt) := walk_args fixed pre std self tr1 rest in Ok (tr', q ++ lit ++ txt)
   end.
 
 Fixpoint join_comma (l : list bytes) : bytes :=
@@ -244,15 +250,15 @@ Fixpoint join_comma (l : list bytes) : bytes :=
   | x :: r => x ++ ","%char :: join_comma r
   end.
 
-Definition name_ref (fixed : bool) (std : option tracker) (self : bytes) (tr : tracker) (r : ref)
+Definition name_ref (fixed : bool) (pre : list bytes) (std : option tracker) (self : bytes) (tr : tracker) (r : ref)
   : res (tracker * bytes) :=
-  let! (tr1, argtxt) := walk_args fixed std self tr (r_args r) in
+  let! (tr1, argtxt) := walk_args fixed pre std self tr (r_args r) in
   let tn := r_name r ++ (if is_nil (r_args r) then [] else "["%char :: argtxt)
             ++ (if is_nil (r_tparams r) then [] else "["%char :: join_comma (r_tparams r) ++ ["]"%char]) in
   if bytes_eqb (r_path r) self then
     Ok (tr1, if is_nil tn then r_path r ++ [dot] else tn)      (* typeName.String() of a gengotypes.Ref *)
   else
-    let! tr2 := add fixed std tr1 (r_path r) in
+    let! tr2 := add fixed pre std tr1 (r_path r) in
     Ok (tr2, lookup_or_empty (r_path r) (p2n tr2) ++ dot :: tn).
 
 (* ---- a writer's history ---- *)
@@ -261,37 +267,37 @@ Inductive op :=
 | OAdd (p : bytes)                (* ImportTracker.AddType *)
 | ORender (its : list item).      (* one snippet rendered: literal text and references, in order *)
 
-Fixpoint render_items (fixed : bool) (std : option tracker) (self : bytes) (tr : tracker)
+Fixpoint render_items (fixed : bool) (pre : list bytes) (std : option tracker) (self : bytes) (tr : tracker)
          (its : list item) : res (tracker * bytes) :=
   match its with
   | [] => Ok (tr, [])
   | ILit b :: rest =>
-      let! (tr', txt) := render_items fixed std self tr rest in Ok (tr', b ++ txt)
+      let! (tr', txt) := render_items fixed pre std self tr rest in Ok (tr', b ++ txt)
   | IRef r :: rest =>
-      let! (tr1, t) := name_ref fixed std self tr r in
-      let! (tr', txt) := render_items fixed std self tr1 rest in Ok (tr', t ++ txt)
+      let! (tr1, t) := name_ref fixed pre std self tr r in
+      let! (tr', txt) := render_items fixed pre std self tr1 rest in Ok (tr', t ++ txt)
   end.
 
-Definition step (fixed : bool) (std : option tracker) (self : bytes) (tr : tracker) (o : op)
+Definition step (fixed : bool) (pre : list bytes) (std : option tracker) (self : bytes) (tr : tracker) (o : op)
   : res (tracker * bytes) :=
   match o with
-  | OAdd p => let! tr' := add fixed std tr p in Ok (tr', [])
-  | ORender its => render_items fixed std self tr its
+  | OAdd p => let! tr' := add fixed pre std tr p in Ok (tr', [])
+  | ORender its => render_items fixed pre std self tr its
   end.
 
 (* the whole history from [tr]: final tracker, text of every op, Imports() after every op *)
-Fixpoint run_from (fixed : bool) (std : option tracker) (self : bytes) (tr : tracker) (ops : list op)
+Fixpoint run_from (fixed : bool) (pre : list bytes) (std : option tracker) (self : bytes) (tr : tracker) (ops : list op)
   : res (tracker * list bytes * list amap) :=
   match ops with
   | [] => Ok (tr, [], [])
   | o :: rest =>
-      let! (tr1, t) := step fixed std self tr o in
-      let! (tr', ts, snaps) := run_from fixed std self tr1 rest in
+      let! (tr1, t) := step fixed pre std self tr o in
+      let! (tr', ts, snaps) := run_from fixed pre std self tr1 rest in
       Ok (tr', t :: ts, p2n tr1 :: snaps)
   end.
 
-Definition run (fixed : bool) (std : option tracker) (self : bytes) (ops : list op) :=
-  run_from fixed std self empty_tracker ops.
+Definition run (fixed : bool) (pre : list bytes) (std : option tracker) (self : bytes) (ops : list op) :=
+  run_from fixed pre std self empty_tracker ops.
 
 (* ---- writeImports ---- *)
 Fixpoint bytes_leb (a b : bytes) : bool :=
